@@ -120,6 +120,10 @@ Check(ev) ==
       got == IF ev.variant = "split" THEN [j \in 1..Len(ev.items) |-> StripLeaf(ev.items[j])] ELSE ev.items
       itemsBad == IF ev.variant = "lend_get" THEN FALSE
                   ELSE IF par THEN ~SameMultiset(got, exp) ELSE got # exp
+      \* is index i in the join?  (an unconstrained join contains every index no negated member excludes)
+      uncAll == Unconstrained(ev)
+      negAll == UNION {Negated(Mem(ev)[k]) : k \in 1..Len(Mem(ev))}
+      InJoin(i) == IF uncAll THEN i \notin negAll ELSE i \in res
       got1(j) == IF ev.gets[j][3] # <<>> THEN 1 ELSE 0
       got2(j) == IF Len(ev.gets[j]) >= 4 /\ ev.gets[j][4] # <<>> THEN 1 ELSE 0
       visited == IF ev.variant = "lend_get"
@@ -141,12 +145,12 @@ Check(ev) ==
       bumpBy(it, n) == [k \in 1..Len(it) |-> IF Mem(ev)[k].k \in Mutable /\ it[k] # <<>> THEN <<it[k][1], it[k][2] + n>> ELSE it[k]]
       getsBad == {j \in 1..Len(ev.gets) :
                     LET h == ev.gets[j][1] alive == ev.gets[j][2] g == ev.gets[j][3]
-                        want == IF alive /\ h[1] \in res THEN bumpBy(ExpItem(ev, h[1]), Prior(j, 1)) ELSE <<>>
+                        want == IF alive /\ InJoin(h[1]) THEN bumpBy(ExpItem(ev, h[1]), Prior(j, 1)) ELSE <<>>
                     IN g # want}
       ugetsBad == {j \in 1..Len(ev.gets) :
                     Len(ev.gets[j]) >= 4 /\
                     LET h == ev.gets[j][1] u == ev.gets[j][4]
-                        want == IF h[1] \in res THEN bumpBy(ExpItem(ev, h[1]), Prior(j, 1) + got1(j)) ELSE <<>>
+                        want == IF InJoin(h[1]) THEN bumpBy(ExpItem(ev, h[1]), Prior(j, 1) + got1(j)) ELSE <<>>
                     IN u # want}
   IN IF ev.variant = "skip" THEN {} ELSE
        (IF ev.panic # "" THEN {F(prop, "panic during join", ev.panic)} ELSE {})
